@@ -39,14 +39,21 @@ Expected(p, press, c) ==
      ELSE IF w # <<>> THEN (IF press THEN <<<<"sc", w[1].s>>>> ELSE <<>>)
      ELSE <<<<IF press THEN "d" ELSE "u", c>>>>
 
+HasNoOp(out) == \E i \in DOMAIN out : out[i][1] \in {"d", "u"} /\ out[i][2] \in 676..685
+
 MonIn(m, r) ==
   IF m.err # "" THEN m
   ELSE IF r.e \in {"d", "u"} THEN
     IF r.out # <<>> THEN Fail(m, "C11 I4: output while the input event was only queued")
     ELSE [m EXCEPT !.pending = Append(@, [p |-> r.e = "d", c |-> r.c])]
+  ELSE IF r.e = "r" THEN
+    \* I5 an OS auto-repeat of a held key: at most a repeat of the same code; the reserved no-op codes are never sent
+    IF HasNoOp(r.out) THEN Fail(m, "C11 I2: a reserved no-op code was sent to the OS (repeat)")
+    ELSE IF InSeq(m.p.pseudo, r.c) \/ Lookup(m.p.btn, r.c) # <<>> \/ Lookup(m.p.wheel, r.c) # <<>> THEN m
+    ELSE IF r.out = <<>> \/ r.out = <<<<"d", r.c>>>> THEN m
+    ELSE Fail(m, "C11 I1: the repeat of a key did not come out as the same OS code")
   ELSE Fail(m, "C11: input kind outside the instance")
 
-HasNoOp(out) == \E i \in DOMAIN out : out[i][1] \in {"d", "u"} /\ out[i][2] \in 676..685
 
 MonTick(m, out, idle, cb) ==
   IF m.err # "" THEN m
